@@ -108,6 +108,40 @@ theorem cacheFilter_sub (inp : Input) : ∀ (log cached : List Url), ∀ u ∈ c
       · subst e; exact List.mem_cons_self
       · exact List.mem_cons_of_mem _ (cacheFilter_sub inp rest _ u e)
 
+/-- a location that is already cached never reaches the wrapped reader -/
+theorem cacheFilter_cached (inp : Input) (u : Url) : ∀ (log cached : List Url), u ∈ cached →
+    (cacheFilter inp cached log).count u = 0
+  | [], _, _ => by simp [cacheFilter]
+  | v :: rest, cached, h => by
+    unfold cacheFilter
+    split
+    · exact cacheFilter_cached inp u rest cached h
+    · next hv =>
+      have hne : v ≠ u := by intro e; subst e; exact hv h
+      rw [List.count_cons_of_ne hne]
+      apply cacheFilter_cached inp u rest
+      split
+      · exact List.mem_cons_of_mem _ h
+      · exact h
+
+/-- a cacheable location whose read succeeds reaches the wrapped reader at most once -/
+theorem cacheFilter_once (inp : Input) (u : Url) (hc : u.cacheable = true) (hs : (storeAt inp u).isSome = true) :
+    ∀ (log cached : List Url), (cacheFilter inp cached log).count u ≤ 1
+  | [], _ => by simp [cacheFilter]
+  | v :: rest, cached => by
+    unfold cacheFilter
+    split
+    · exact cacheFilter_once inp u hc hs rest cached
+    · by_cases e : v = u
+      · subst e
+        rw [List.count_cons_self]
+        have : (cacheFilter inp (if v.cacheable && (storeAt inp v).isSome then v :: cached else cached) rest).count v = 0 := by
+          apply cacheFilter_cached
+          simp [hc, hs]
+        omega
+      · rw [List.count_cons_of_ne e]
+        exact cacheFilter_once inp u hc hs rest _
+
 /-- the justification of every read survives the cache: a read that is served from the cache was kept once before -/
 theorem cacheFilter_just (inp : Input) : ∀ (log cached pre pre' : List Url),
     (∀ c ∈ cached, c ∈ pre') → (∀ x ∈ pre, x ∈ pre') →
